@@ -16,3 +16,17 @@ package common
 //@   at call filepath.Rel#1 assert a0 == dir && a1 == filepath.Dir(filePath)
 //@   at call filepath.Rel#1 assume-after nth(result, 0) == relv()
 //@   ensures err == nil ==> len(dir) > 0 && calls("filepath.Rel") == 1 && !strings.HasPrefix(relv(), "..")
+
+// Domain-table / LPM key words: word w of the key is the native-endian load of bytes 4w..4w+3, so the
+// key's bytes in memory are the 16 address bytes unchanged (the kernel keys on the raw __be32[4]).
+// ne32(b0,b1,b2,b3) names what NativeEndian.Uint32 returns for those four bytes.
+//@ specfn ne32(b0 int, b1 int, b2 int, b3 int) int
+//@ func Ipv6ByteSliceToUint32Array
+//@   requires len(_ip) >= 16
+//@   dyncalls noeffect
+//@   at call ByteOrder).Uint32#1 assert len(a1) == 4 && a1.$base == _ip.$base && a1.$off == _ip.$off + j
+//@   at call ByteOrder).Uint32#1 assume-after result == ne32(_ip[j], _ip[j+1], _ip[j+2], _ip[j+3])
+//@   ensures forall w int :: 0 <= w && w < 4 ==> ip[w] == ne32(_ip[4*w], _ip[4*w+1], _ip[4*w+2], _ip[4*w+3])
+//@   loop 1
+//@     invariant 0 <= j && j <= 16 && j % 4 == 0
+//@     invariant forall w int :: 0 <= w && w < 4 ==> (4*w < j ==> ip[w] == ne32(_ip[4*w], _ip[4*w+1], _ip[4*w+2], _ip[4*w+3]))
